@@ -80,8 +80,11 @@ fn victims(thorough: bool) -> Vec<(String, Vec<Step>, Step)> {
     v
 }
 
+/// length-3 histories added to the quick tier
+const EXTRA_QUICK: &[&[&str]] = &[&["C", "B(set0=1)", "B(set1=2)"], &["C", "B(set0=1)", "M1"]];
+
 /// history prefixes whose crash points also get the second-crash layer in the quick tier
-const DOUBLE_QUICK: &[&[&str]] = &[&["C"], &["B(set0=1)", "C"], &["C", "B(set0=1)"], &["C", "M1"]];
+const DOUBLE_QUICK: &[(&[&str], &str)] = &[(&["C"], "C"), (&["C"], "finalise(B(set0=2))")];
 
 struct Prepared {
     inst: Inst,
@@ -154,15 +157,31 @@ pub fn worker(tier: &str, shard: u64, nshards: u64, budget_s: f64) -> CrashStats
         prefixes.extend(next.iter().filter(|p| p.iter().any(|i| alpha[*i].0 == "C")).cloned());
         cur = next;
     }
+    if !thorough {
+        // two uncommitted blocks above the last commit, so that a reorg victim has a target strictly
+        // between the committed and the current height (the thorough tier has all length-3 histories)
+        for extra in EXTRA_QUICK {
+            prefixes.push(extra.iter().map(|n| alpha.iter().position(|a| a.0 == *n).expect("alphabet")).collect());
+        }
+    }
     let base = start_with_s();
     let mut refi = Inst::fresh();
     let mut memo: HashMap<u128, (String, String)> = HashMap::new();
     let mut counter = 0u64;
-    'hist: for p in &prefixes {
+    // pass 0: the first-level cases of every history; pass 1: the second-crash layer (so that a short
+    // budget is spent on the first level first)
+    'hist: for (pass, p) in (0..2).flat_map(|pass| prefixes.iter().map(move |p| (pass, p))) {
         for (vname, vpre, victim) in victims(thorough) {
             if Instant::now() > deadline {
                 st.complete = false;
                 break 'hist;
+            }
+            // second-crash layer: every history in the thorough tier; in the quick tier the histories of
+            // DOUBLE_QUICK (a stated sub-bound, not a sample)
+            let pname: Vec<&str> = p.iter().map(|i| alpha[*i].0.as_str()).collect();
+            let double_here = pass == 1 && (thorough || DOUBLE_QUICK.iter().any(|d| d.0 == pname.as_slice() && d.1 == vname));
+            if pass == 1 && !double_here {
+                continue;
             }
             let mut steps = base.clone();
             for i in p {
@@ -173,12 +192,16 @@ pub fn worker(tier: &str, shard: u64, nshards: u64, budget_s: f64) -> CrashStats
             // --- count mode ---
             let dir0 = fresh_dir();
             let Some(mut pr) = prepare(&dir0, &steps) else {
-                st.histories_skipped += 1;
+                if shard == 0 && pass == 0 {
+                    st.histories_skipped += 1;
+                }
                 let _ = std::fs::remove_dir_all(&dir0);
                 continue;
             };
             if pr.world.committed.is_none() {
-                st.histories_skipped += 1;
+                if shard == 0 && pass == 0 {
+                    st.histories_skipped += 1;
+                }
                 drop(pr);
                 let _ = std::fs::remove_dir_all(&dir0);
                 continue;
@@ -194,19 +217,15 @@ pub fn worker(tier: &str, shard: u64, nshards: u64, budget_s: f64) -> CrashStats
             drop(pr);
             let _ = std::fs::remove_dir_all(&dir0);
             if !accepted || n == 0 || vout.call.method == "<skip>" {
-                if shard == 0 {
+                if shard == 0 && pass == 0 {
                     st.histories_skipped += 1;
                 }
                 continue;
             }
-            if shard == 0 {
+            if shard == 0 && pass == 0 {
                 st.histories += 1;
                 *st.victims.entry(vname.clone()).or_insert(0) += 1;
             }
-            // second-crash layer: every history in the thorough tier; in the quick tier the histories of
-            // DOUBLE_QUICK (a stated sub-bound, not a sample)
-            let pname: Vec<&str> = p.iter().map(|i| alpha[*i].0.as_str()).collect();
-            let double_here = thorough || DOUBLE_QUICK.iter().any(|d| *d == pname.as_slice());
             let uni = post_world.uni.clone();
             let committed = pre_world.committed.unwrap();
             let max_ever = pre_world.max_ever.unwrap_or(committed);
@@ -226,14 +245,14 @@ pub fn worker(tier: &str, shard: u64, nshards: u64, budget_s: f64) -> CrashStats
                 hs.push(upper - 1);
             }
             hs.retain(|h| *h <= upper && *h >= lower);
-            if st.samples.len() < 4 && shard == 0 {
+            if st.samples.len() < 4 && shard == 0 && pass == 0 {
                 st.samples.push(json!({"history": name, "persistent_writes_of_victim": n, "first_sites": sites.iter().take(6).collect::<Vec<_>>(), "recovery_heights": hs}));
             }
             for i in 0..=n {
                 counter += 1;
                 // the first-level cases of a crash point belong to one worker; the second-crash layer of a
                 // crash point is spread over all workers (each rebuilds the crashed directory)
-                let mine = counter % nshards == shard;
+                let mine = pass == 0 && counter % nshards == shard;
                 if !mine && !double_here {
                     continue;
                 }
@@ -324,6 +343,9 @@ pub fn worker(tier: &str, shard: u64, nshards: u64, budget_s: f64) -> CrashStats
                         v::fp_reset(u64::MAX, false);
                         drop(rc);
                         let _ = std::fs::remove_dir_all(&dc);
+                        if std::env::var("VERIF_DEBUG").is_ok() && shard == 0 {
+                            eprintln!("second-crash: {:?} first crash {} of {} recovery height {} -> {} writes in the recovery reorg (ok={})", name, i, n, h, n2, r0.is_ok());
+                        }
                         if r0.is_ok() {
                             for j in 0..n2 {
                                 if (counter * 7 + j) % nshards != shard {
@@ -345,12 +367,16 @@ pub fn worker(tier: &str, shard: u64, nshards: u64, budget_s: f64) -> CrashStats
                                 drop(r2);
                                 st.second_crash_points += 1;
                                 let mut h2s = vec![*h];
-                                if lower < *h {
+                                if thorough && lower < *h {
                                     h2s.push(lower);
                                 }
+                                let in_place = h2s.len() == 1;
                                 for h2 in h2s {
-                                    let d3 = fresh_dir();
-                                    copy_dir(&d2, &d3);
+                                    // (with a single second recovery the crashed directory is reopened as it is)
+                                    let d3 = if in_place { d2.clone() } else { fresh_dir() };
+                                    if !in_place {
+                                        copy_dir(&d2, &d3);
+                                    }
                                     let mut r3 = Inst::open(&d3);
                                     st.cases += 1;
                                     let rr = r3.call("brc20_reorg", json!([h2]));
@@ -364,7 +390,7 @@ pub fn worker(tier: &str, shard: u64, nshards: u64, budget_s: f64) -> CrashStats
                                         let (want, want_ext) = reference(&mut refi, &mut memo, &pre_world, h2, &uni);
                                         if got != want {
                                             det2 = got.lines().zip(want.lines()).find(|(a, b)| a != b).map(|(a, b)| format!("recovered: {} | fresh replay up to {}: {}", trunc(a, 600), h2, trunc(b, 600))).unwrap_or_default();
-                                        } else {
+                                        } else if thorough {
                                             extend(&mut r3, h2);
                                             let got2 = obs::obs(&mut r3, &u, &ObsCfg::default());
                                             if got2 != want_ext {
@@ -379,7 +405,9 @@ pub fn worker(tier: &str, shard: u64, nshards: u64, budget_s: f64) -> CrashStats
                                         st.violations.push(Violation { property: "C04".into(), kind: "not-recovered-after-second-crash".into(), scenario: "crash".into(), start: "S deployed in block 1".into(), path: name.clone(), steps: steps.clone(), detail: format!("crash before write #{} of {} ({}), reopened at height {}, recovery brc20_reorg({}) crashed before its write #{} of {} ({}), reopened again, brc20_reorg({}): {}", i, n, site, height, h, j, n2, site2, h2, det2) });
                                     }
                                     drop(r3);
-                                    let _ = std::fs::remove_dir_all(&d3);
+                                    if !in_place {
+                                        let _ = std::fs::remove_dir_all(&d3);
+                                    }
                                 }
                                 let _ = std::fs::remove_dir_all(&d2);
                             }
@@ -449,11 +477,11 @@ pub fn run(tier: &str, seed: u64) -> i32 {
     let mut ev = Evidence::new("C04", tier, seed, "fault_enumeration");
     ev.coverage = json!({
         "evaluations": total.cases, "distinct_nontrivial": total.crash_points,
-        "rule": "histories = every sequence of length <= 2 (quick) / 3 (thorough) over {B(set0=1), B(set1=2), M1, M(W-1), C, R-1, R-2} that contains a successful commit, followed by a victim in {commit, reorg 1 / 2 / W blocks back, finalise of a one-transaction block}; for each history the victim's persistent writes are counted and a crash (panic in front of the write, all handles dropped, directory reopened) is placed before each one and after the last; each (history, crash point, eligible recovery height) is one case. distinct_nontrivial = crash points",
+        "rule": "histories = every sequence of length <= 2 (quick; plus [C, B(set0=1), B(set1=2)] and [C, B(set0=1), M1]) / 3 (thorough) over {B(set0=1), B(set1=2), M1, M(W-1), C, R-1, R-2} that contains a successful commit, followed by a victim in {commit, reorg 1 / 2 / W blocks back, finalise of a one-transaction block}; for each history the victim's persistent writes are counted and a crash (panic in front of the write, all handles dropped, directory reopened) is placed before each one and after the last; each (history, crash point, eligible recovery height) is one case. distinct_nontrivial = crash points",
         "samples": total.samples.iter().take(6).collect::<Vec<_>>(),
         "histories": total.histories, "histories_without_victim_writes": total.histories_skipped, "crash_points": total.crash_points, "recovered_cases": total.recoveries,
         "non_commit_victims_lost_only_uncommitted": total.lost_only_uncommitted,
-        "second_crash": {"rule": "for every first crash point of the histories [C], [B(set0=1), C], [C, B(set0=1)], [C, M1] (quick; first recovery height) / of every history (thorough; every recovery height): a second crash in front of every persistent write of the recovery reorg, reopen, reorg to the same height and to the lowest eligible one", "crash_points_inside_recovery": total.second_crash_points, "recovered_after_second_crash": total.second_recoveries},
+        "second_crash": {"rule": "for every first crash point of ([C], victim C) and ([C], victim finalise) (quick — a smoke-level sub-bound: one case costs two re-opens of 28 RocksDB instances; first recovery height, second recovery to the same height) / of every history and victim (thorough; every recovery height, second recovery to the same and to the lowest eligible height, plus one more block): a second crash in front of every persistent write of the recovery reorg, reopen, reorg again", "crash_points_inside_recovery": total.second_crash_points, "recovered_after_second_crash": total.second_recoveries},
         "heights_at_reopen": total.reopened_heights, "crash_sites": total.sites, "victims": total.victims,
         "exhaustive": total.complete, "machinery_errors": errors,
     });
